@@ -199,7 +199,11 @@ class CallMixin:
         res = None
         if rshape is not None:
             res = self.fresh_value(self.shape(rshape), uid("ret_" + qual.split(".")[-1]), st)
+        # the callee may allocate: the allocation frontier moves forward by an unknown amount
+        new_alloc = z3.Int(uid("alloc"))
+        st.assume(new_alloc >= to_z3(st.alloc))
         post = st.copy()
+        post.alloc = new_alloc
         post.env = dict(env)
         post.env["result"] = res
         post.old = pre
@@ -390,12 +394,11 @@ class CallMixin:
         """ASCII case map of a string of length <= 1 (enough for the code under contract); longer: Unsupported"""
         if self.str_len_bound(z) != 1:
             raise Unsupported("case map of a multi-character symbolic string")
-        import string as _s
-        src, dst = (_s.ascii_uppercase, _s.ascii_lowercase) if which == "lower" else (_s.ascii_lowercase, _s.ascii_uppercase)
-        res = z
-        for a, b in zip(src, dst):
-            res = z3.If(z == a, z3.StringVal(b), res)
-        return res
+        # code-point arithmetic (str.to_code is -1 on the empty string, which falls outside both ranges)
+        code = z3.StrToCode(z)
+        if which == "lower":
+            return z3.If(z3.And(code >= 65, code <= 90), z3.StrFromCode(code + 32), z)
+        return z3.If(z3.And(code >= 97, code <= 122), z3.StrFromCode(code - 32), z)
 
     # ------------------------------------------------------------------ builtins
     def bi_len(self, args, kw, node, st):
